@@ -125,7 +125,25 @@ pub fn run(ctx: &mut Ctx) {
     ctx.extra.insert("box_kinds".into(), serde_json::json!(KINDS.len()));
 }
 
-pub fn replay(ctx: &mut Ctx, _stage: &str, case: &Value) -> Check {
+pub fn replay(ctx: &mut Ctx, stage: &str, case: &Value) -> Check {
+    if stage == "fuzz" {
+        // libFuzzer artifact of the box_fixpoint target: first byte selects the kind
+        let data = crate::engine::unhex(case.get("hex").and_then(|h| h.as_str()).unwrap_or(""));
+        if data.len() < 9 {
+            return Ok(());
+        }
+        let mut runner = crate::gen::fixed_runner(7);
+        let specs: Vec<Spec> = KINDS.iter().map(|k| crate::gen::draw(&boxes::strategy(k, 1), &mut runner)).collect();
+        let spec = &specs[data[0] as usize % specs.len()];
+        let mut cv = Converse { kind: spec.kind(), bytes: &data[1..], compare_bytes: false, accepted: false, reencoded: false };
+        return match libbox::with_lib(spec, &mut cv) {
+            Some(r) => r,
+            None => {
+                use libbox::Visitor;
+                cv.visit(&libbox::dinf_witness())
+            }
+        };
+    }
     let c: Case = serde_json::from_value(case.clone()).map_err(|e| Failure::new("replay:bad-case", e.to_string()))?;
     oracle(ctx, &c)
 }
